@@ -52,6 +52,8 @@ type c16 struct {
 	overlap  bool
 	collect  bool
 	subs     []c16sub
+	evDone   []*ev // completely generated sub-programs (candidates for sharing)
+	built    map[*ev]lazy.Eval[int]
 }
 
 func (c *c16) counter(name string) *c16counter {
@@ -277,9 +279,21 @@ const (
 
 func (c *c16) genEval(depth int, budget *int) *ev {
 	r := c.r
+	// programs are DAGs, not only trees: an Eval is a value and may be derived from more than once (a.Map(f) and a.Map(g))
+	if depth > 0 && len(c.evDone) > 0 && r.Bool(1, 6, "shareSubProgram") {
+		r.Probe("sub-programs-used-more-than-once")
+		return c.evDone[r.Choose(len(c.evDone), "shared")]
+	}
+	n := c.genEval1(depth, budget)
+	c.evDone = append(c.evDone, n)
+	return n
+}
+
+func (c *c16) genEval1(depth int, budget *int) *ev {
+	r := c.r
 	n := &ev{c: 1 + r.Choose(9, "c")}
 	*budget--
-	if depth >= 6 || *budget <= 0 {
+	if depth >= 9 || *budget <= 0 {
 		n.op = []int{evDone, evCall, evZero}[r.Choose(3, "evleaf")]
 		return n
 	}
@@ -348,7 +362,19 @@ func (n *ev) strict() int {
 // inside thunks) every sub-program is remembered together with its strict value: a sub-program is an Eval in its own
 // right and may be asked for its value before or after the program it is part of.
 func (c *c16) buildEval(n *ev, path string) lazy.Eval[int] {
+	if c.collect {
+		// a sub-program used more than once is built once: both users derive from the same Eval value
+		if e, ok := c.built[n]; ok {
+			return e
+		}
+	}
 	e := c.buildEval1(n, path)
+	if c.collect {
+		if c.built == nil {
+			c.built = map[*ev]lazy.Eval[int]{}
+		}
+		c.built[n] = e
+	}
 	if c.collect && len(c.subs) < 24 {
 		var sb strings.Builder
 		n.write(&sb)
